@@ -258,10 +258,12 @@ def build(spec):
         return hg.Select(mkq(spec["q"]), build(spec["cut"]))
     if k == "Categorize":
         return hg.Categorize(mkq(spec["q"]), build(spec["value"]))
-    if k == "Label":
-        return hg.Label(**{n: build(s) for n, s in spec["pairs"].items()})
-    if k == "UntypedLabel":
-        return hg.UntypedLabel(**{n: build(s) for n, s in spec["pairs"].items()})
+    if k in ("Label", "UntypedLabel"):
+        # "order": "rev" — the same members given in the opposite keyword order (the order is not part of the content)
+        items = list(spec["pairs"].items())
+        if spec.get("order") == "rev":
+            items.reverse()
+        return getattr(hg, k)(**{n: build(s) for n, s in items})
     if k == "Index":
         return hg.Index(*[build(s) for s in spec["values"]])
     if k == "Branch":
@@ -391,7 +393,7 @@ def perturb_spec(rng, spec, allow_type_swap=True):
         cands = []
         for path in _paths(s2):
             k0 = _get(s2, path)["k"]
-            per = {"Bin": ["n", "low", "high"], "SparselyBin": ["width", "origin"], "CentrallyBin": ["center", "addcenter"],
+            per = {"Bin": ["n", "low", "high"], "SparselyBin": ["width", "origin"], "CentrallyBin": ["center", "addcenter", "dupcenter"],
                    "IrregularlyBin": ["edge", "addedge", "dropedge"], "Stack": ["edge", "addedge", "dropedge"],
                    "Bag": ["range"], "Label": ["renamekey", "addmember"], "UntypedLabel": ["renamekey", "addmember"],
                    "Index": ["addmember"], "Branch": ["addmember"]}.get(k0, [])
@@ -422,6 +424,10 @@ def perturb_spec(rng, spec, allow_type_swap=True):
                 continue
         elif c == "addcenter":
             node["centers"] = node["centers"] + [node["centers"][-1] + 1.0]
+        elif c == "dupcenter":
+            # the constructor accepts a repeated centre: same set of centres, one more bin
+            i = rng.randrange(len(node["centers"]))
+            node["centers"] = node["centers"][:i + 1] + node["centers"][i:]
         elif c == "edge":
             i = rng.randrange(len(node["edges"]))
             node["edges"][i] = node["edges"][i] + 0.25
